@@ -305,6 +305,8 @@ func zzStepKind(k int, classes int) {
 		before = zzDump(node) + zz.GlobalsDump()
 	}
 	v, err, panicked := zzRunNode(e, node, zzKindCat[k])
+	scopeAfter, resultRV := zzScopeAfter, zzResultRV
+	_ = resultRV // (the native oracles below run the node again)
 	zz.Drain()
 	if zz.Symbolic() {
 		zz.Assertf(zz.Events("frozen-write") == 0, "C14.F1.tree-and-globals-read-only/"+kind, zz.EventText("frozen-write"))
@@ -382,7 +384,7 @@ func zzStepKind(k int, classes int) {
 	// C04-S1: after any statement finishes - normally, by break/continue/
 	// return, or by an error - execution continues in exactly the scope that
 	// was current before it
-	zz.Assert(zzScopeAfter == e, "C04.S1.scope-restored/"+kind)
+	zz.Assert(scopeAfter == e, "C04.S1.scope-restored/"+kind)
 	if err == nil {
 		// closure: the value handed back is well formed (RunContext already
 		// called Interface() on it, so reaching here means it was)
